@@ -15,7 +15,7 @@ prop(
     level_text="For each value: byte_len == bytes written == encode's return, the decoder consumes exactly those bytes "
                "(sentinel tail), the decoded value equals the normalised original, re-encoding it gives identical bytes, "
                "and a value written after it in the same buffer reads back. Held = no failure on the values explored.",
-    level_note="Trusted: the normalisation functions in harness/src/p_codec.rs (LocalizedText null/empty, empty-array "
+    level_note="Trusted: the normalisation functions in harness/crates/codec/src/p_codec.rs (LocalizedText null/empty, empty-array "
                "dimensions). Decoder-driven values only reach what the decoder accepts; field contents are biased "
                "towards small lengths.",
     shards={"quick": 8, "thorough": 16},
@@ -37,10 +37,14 @@ prop(
                "allocation above a bound derived from the input length and the decoding limits, or a nesting deeper "
                "than the depth limit being accepted.",
     level_note="The allocation bound is generous (it is meant to catch allocations driven by declared lengths rather "
-               "than by bytes present). Miri/ASan are not part of this check; the repository has no unsafe code on the "
-               "decode path.",
+               "than by bytes present). The thorough tier additionally interprets about 5000 decodes of the same workload "
+               "under Miri (16 processes), which would report undefined behaviour in any crate on the decode path "
+               "(byteorder, bytes, chrono, uuid, the repository has no unsafe code there); the driver first requires "
+               "Miri to flag a deliberate out-of-bounds read. Nesting bombs run only in the plain pass.",
     shards={"quick": 8, "thorough": 16},
     timeout={"quick": 900, "thorough": 3600},
+    # thorough: the same decode workload, ~5000 decodes, interpreted by Miri (UB in any crate on the decode path)
+    instrument={"thorough": [{"tool": "miri", "scale": 0.0016, "shards": 16, "timeout": 2400}]},
 )
 
 prop(
